@@ -71,6 +71,11 @@ pub struct SortCfg {
 }
 
 fn build(cfg: &SortCfg, mf: LoggingConcat, ctr: Rc<Counters>) -> Sorter<LoggingConcat, CountingCreator> {
+    build_with(cfg, mf, CountingCreator { ctr })
+}
+
+/// the same sorter over any chunk storage (the crate's own CursorVec and TempFileChunk among them)
+fn build_with<CC: ChunkCreator>(cfg: &SortCfg, mf: LoggingConcat, cc: CC) -> Sorter<LoggingConcat, CC> {
     let mut b = SorterBuilder::new(mf);
     b.verif_dump_threshold_unclamped(cfg.threshold);
     b.verif_initial_capacity(cfg.init_cap);
@@ -81,7 +86,25 @@ fn build(cfg: &SortCfg, mf: LoggingConcat, ctr: Rc<Counters>) -> Sorter<LoggingC
     b.chunk_compression_type(cfg.codec);
     b.index_levels(cfg.levels);
     b.verif_block_size_unclamped(cfg.block_size);
-    b.chunk_creator(CountingCreator { ctr }).build()
+    b.chunk_creator(cc).build()
+}
+
+/// run 2 of a sorter case: inserts, write_into_stream_writer, full scan of the written file
+fn run_into_writer<CC: ChunkCreator>(cfg: &SortCfg, ins: &[(Vec<u8>, Vec<u8>)], cc: CC) -> Result<Vec<(Vec<u8>, Vec<u8>)>, String> {
+    let mf2 = LoggingConcat { calls: RefCell::new(Vec::new()), fail_at: None, sort: !cfg.stable };
+    let mut s = build_with(cfg, mf2, cc);
+    for (k, v) in ins.iter() {
+        s.insert(k, v).map_err(|e| err_class(&e))?;
+    }
+    let mut w = Writer::memory();
+    s.write_into_stream_writer(&mut w).map_err(|e| err_class(&e))?;
+    let f = w.into_inner().map_err(|e| io_class(&e))?;
+    let mut cur = grenad::Reader::new(Cursor::new(f)).map_err(|e| err_class(&e))?.into_cursor().map_err(|e| err_class(&e))?;
+    let mut out = Vec::new();
+    while let Some((k, v)) = cur.move_on_next().map_err(|e| err_class(&e))? {
+        out.push((k.to_vec(), v.to_vec()));
+    }
+    Ok(out)
 }
 
 fn scan_hash(items: &[(Vec<u8>, Vec<u8>)]) -> String {
@@ -329,23 +352,14 @@ fn emit_sorter_case_cr<W: Write>(c: &mut Cases<W>, which: &str, cfg: &SortCfg, i
             return;
         }
         // run 2: into a writer
+        // (the chunk storage alternates: the counting in-memory one, the crate's CursorVec, its TempFileChunk)
         let ctr2 = Rc::new(Counters::default());
-        let mf2 = LoggingConcat { calls: RefCell::new(Vec::new()), fail_at: None, sort: !cfg.stable };
-        let r2 = catch(|| -> Result<Vec<(Vec<u8>, Vec<u8>)>, String> {
-            let mut s = build(&cfg, mf2, ctr2.clone());
-            for (k, v) in ins.iter() {
-                s.insert(k, v).map_err(|e| err_class(&e))?;
-            }
-            let mut w = Writer::memory();
-            s.write_into_stream_writer(&mut w).map_err(|e| err_class(&e))?;
-            let f = w.into_inner().map_err(|e| io_class(&e))?;
-            let mut cur = grenad::Reader::new(Cursor::new(f)).map_err(|e| err_class(&e))?.into_cursor().map_err(|e| err_class(&e))?;
-            let mut out = Vec::new();
-            while let Some((k, v)) = cur.move_on_next().map_err(|e| err_class(&e))? {
-                out.push((k.to_vec(), v.to_vec()));
-            }
-            Ok(out)
+        let r2 = catch(|| match c.count % 3 {
+            0 => run_into_writer(&cfg, ins, CountingCreator { ctr: ctr2.clone() }),
+            1 => run_into_writer(&cfg, ins, grenad::CursorVec),
+            _ => run_into_writer(&cfg, ins, grenad::TempFileChunk),
         });
+        c.bump(["storage.counting", "storage.cursor_vec", "storage.temp_file"][(c.count % 3) as usize], 1);
         match r2 {
             Ok(Ok(out)) => c.line(&format!("out2 {}", scan_hash(&out))),
             Ok(Err(e)) => c.line(&format!("out2 err {}", e)),
